@@ -22,6 +22,7 @@ EXPLANATION = (
     "message; (stays-usable) a dropped frame continues the writer/proxy loop; (delivered-unchanged) an admitted frame is written with a flushing send, or every path from a buffering feed to the writer's next wait crosses a flush, so a later dropped frame cannot strand it in the write buffer. Assumption from the property: the limit is "
     "large enough for the replacement error reply (not re-checked)."
     " Every WebSocketConfig literal leaves tungstenite's outbound limits at their defaults / usize::MAX or gives max_write_buffer_size at least the assumed limit + 14."
+    " No Option-typed limit field is ordered with Option's own min / max / clamp / comparison anywhere in the crate (None, meaning no limit, sorts lowest); only that bug pattern is decided, not the arithmetic of a hand-written combination."
 )
 ASSUMPTIONS = [
     "Message::into_wire_bytes / to_vec emit 48 + len(query) + len(body) bytes (C01 emission-normal-form)",
